@@ -392,21 +392,56 @@ Definition dec_frame (files : list tokres) (s : sexp) : option frame :=
   | _ => None
   end.
 Definition enc_lines (ls : list str) : sexp := sList sStr ls.
+(* ---- solutions (ExceptionTrace._render_solution): what the solution provider repository returns for the exception
+   is an input; the report of _render_exception is followed by one block per solution ---- *)
+Record solution := { so_title : str; so_desc : str; so_links : list str }.
+Fixpoint lstrip_char (ch : N) (s : str) : str := match s with c :: r => if N.eqb c ch then lstrip_char ch r else s | [] => [] end.
+Definition rstrip_char (ch : N) (s : str) : str := rev (lstrip_char ch (rev s)).
+Definition strip_char (ch : N) (s : str) : str := rstrip_char ch (lstrip_char ch s).
+Definition s_sol_open : str := ([60;102;103;61;98;108;117;101;59;111;112;116;105;111;110;115;61;98;111;108;100;62]%N) (* <fg=blue;options=bold> *).
+Definition s_sol_mid : str := ([32;60;47;62;60;102;103;61;100;101;102;97;117;108;116;59;111;112;116;105;111;110;115;61;98;111;108;100;62]%N) (*  </><fg=default;options=bold> *).
+Definition s_sol_colon : str := ([60;47;62;58;32]%N) (* </>:  *).
+Definition st_blue : str := ([102;103;61;98;108;117;101]%N) (* fg=blue *).
+Definition nl_indent4 : str := [NL; 32; 32; 32; 32]%N.
+Definition solution_line (utf8 : bool) (s : solution) : str :=
+  s_sol_open ++ (if utf8 then [8226%N] else [42%N]) ++ s_sol_mid ++ literal (rstrip_char 46 (so_title s)) th_builtin ++ s_sol_colon
+    ++ tagged th_default (literal (strip_char 32 (replace [NL] nl_indent4 (so_desc s))) th_default)
+    ++ join_with COMMA (map (fun l => [NL; 32; 32]%N ++ tagged st_blue (literal l st_blue)) (so_links s)).
+Definition render_solutions (c : tcfg) (ind : Z) (sols : list solution) : list wline :=
+  flat_map (fun s => render_line ind (solution_line (t_utf8 c) s) true 0) sols.
+(* render with a solution provider repository *)
+Definition render_lines_sol (c : tcfg) (simple : bool) (ind0 : Z) (x : exn_case) (sols : list solution) : res (list wline) :=
+  if simple then render_lines c simple ind0 x
+  else match x_frames x with
+       | [] => Ok []
+       | _ => do ls <- render_lines c simple ind0 x; Ok (ls ++ render_solutions c (ind0 + 2) sols)
+       end.
+Definition render_sol (c : tcfg) (simple : bool) (o : outp) (x : exn_case) (sols : list solution) : res str :=
+  do ls <- render_lines_sol c simple (o_indent o) x sols;
+  do o' <- write_lines o ls;
+  Ok (o_buf o').
+Definition dec_solution (s : sexp) : option solution :=
+  match s with
+  | L [t; d; ls] => match dStr t, dStr d, dList dStr ls with
+                    | Some t, Some d, Some ls => Some {| so_title := t; so_desc := d; so_links := ls |}
+                    | _, _, _ => None end
+  | _ => None
+  end.
 Definition run_C20 (s : sexp) : sexp :=
   match s with
   (* a whole render: formatter kind, stream supports ANSI, style set, flags, directories, exception, files, frames *)
-  | L [A 0%Z; fk; A stream_ansi; set; A simple; A verbose; A debug; A utf8; cwd; home; A sep; name; msg; files; frames] =>
+  | L [A 0%Z; fk; A stream_ansi; set; A simple; A verbose; A debug; A utf8; cwd; home; A sep; name; msg; files; frames; sols] =>
     match dec_fkind fk, dList dec_cstyle set, dStr cwd, dStr home, dStr name, dStr msg, dList dec_tokres files with
     | Some k, Some set, Some cwd, Some home, Some name, Some msg, Some files =>
-      match dList (dec_frame files) frames, new_formatter k set with
-      | Some frames, Ok f =>
+      match dList (dec_frame files) frames, new_formatter k set, dList dec_solution sols with
+      | Some frames, Ok f, Some sols =>
         let o := {| o_indent := 0; o_on := format_on (negb (Z.eqb stream_ansi 0)) k; o_sec := false; o_fmt := f; o_buf := [] |} in
         let c := {| t_verbose := negb (Z.eqb verbose 0); t_debug := negb (Z.eqb debug 0); t_utf8 := negb (Z.eqb utf8 0);
                     t_cwd := cwd; t_home := home; t_sep := Z.to_N sep |} in
         let x := {| x_name := name; x_msg := msg; x_frames := frames |} in
-        L [sRes sStr (render c (negb (Z.eqb simple 0)) o x);
-           sRes (fun ls => sList (fun l => L [A (fst l); sStr (snd l)]) ls) (render_lines c (negb (Z.eqb simple 0)) 0 x)]
-      | _, _ => sBad
+        L [sRes sStr (render_sol c (negb (Z.eqb simple 0)) o x sols);
+           sRes (fun ls => sList (fun l => L [A (fst l); sStr (snd l)]) ls) (render_lines_sol c (negb (Z.eqb simple 0)) 0 x sols)]
+      | _, _, _ => sBad
       end
     | _, _, _, _, _, _, _ => sBad
     end
